@@ -135,8 +135,8 @@ var numeralCores = []string{
 	"19999999999999999999", "20000000000000000000", "20000000000000000001", "27670116110564327424",
 	"99999999999999999999", "100000000000000000000", "100000000000000000001", // 10^20
 	"123456789012345678901234567890", "340282366920938463463374607431768211456",
-	// 20-digit numerals whose uint64 accumulation wraps WITHOUT tripping lexUint's `n < value` test
-	// (accepted as a date: C02_quirks), and their neighbours that do trip it
+	// 20-digit numerals whose uint64 accumulation wrapped WITHOUT tripping lexUint's former
+	// `n < value` test (defect D11, fixed in 162b292: they must be rejected), and neighbours
 	"21000000000000000000", "27000000000000000000", "20496382304121724020", "20496382304121724010", "27670116110564327420", "27670116110564327430",
 }
 
